@@ -303,7 +303,7 @@ class C16(World):
         "disk: per-run scratch directory under /dev/shm; read faults by wrapping pathlib.Path.open, pandas.read_csv, pandas.read_excel, pandas.ExcelFile; write faults by wrapping pandas.ExcelWriter",
         "wall clock read by OpenPinch.utils.export (simulated clock object)",
     ]
-    fault_kinds = ["read_error", "torn_file", "lost_rows", "write_error", "missing_dir", "clock_jump", "abort", "same_mtime"]
+    fault_kinds = ["read_error", "torn_file", "lost_rows", "write_error", "missing_dir", "clock_jump", "abort", "injected_error:memory", "injected_error:os", "same_mtime"]
     state_abstraction = "per wrapper (something loaded?, channel of last load, result cached?, last load failed?) x fault kind in force"
     rule = (
         "each run = one generated history (3-20 operations) over 1-3 logical problems and 1-3 wrapper objects: load(wrapper, problem, channel) "
@@ -454,6 +454,7 @@ class C16(World):
                 st = dict(op="target", w=args.randrange(nw), twice=args.random() < 0.4)
                 if fault and args.random() < 0.5:
                     st["abort_at"] = args.choice([20, 200, 2000, 12000, 30000])
+                    st["abort_exc"] = args.choice([None, None, "memory", "os"])  # Ctrl-C-like BaseException, or an ordinary failed allocation / system call
             elif op == "svc":
                 st = dict(op="svc", p=args.randrange(len(probs)), form=args.choice(["dict", "model", "vu_dict"]), name=args.choice(STEMS), ints=args.random() < 0.4)
             elif op == "export":
@@ -461,6 +462,7 @@ class C16(World):
                 if fault:
                     st["fault"] = args.choice(["write_error", "missing_dir", "abort"])
                     st["abort_at"] = args.choice([20, 200, 2000, 12000, 30000, 60000])
+                    st["abort_exc"] = args.choice([None, None, "memory", "os"])
             elif op == "ctor_run":
                 st = dict(op="ctor_run", p=args.randrange(len(probs)), ch=args.choice(["json", "json_vu", "csv_dir", "xlsx"]), stem=args.choice(STEMS), export=args.random() < 0.5)
             elif op == "alloc":
@@ -746,9 +748,19 @@ class C16(World):
                     w_i = st["w"] % n_w
                     w, m = wrappers[w_i], model[w_i]
                     if st.get("abort_at") and m["loaded"] is not None and not m["cached"]:
-                        tr = LineTracer(st["abort_at"])
+                        tr = LineTracer(st["abort_at"], st.get("abort_exc"))
                         kind, val = tr.run(w.target)
+                        if tr.fired and kind != "abort":
+                            # swallowed inside the library (a bare / broad except): the call went on along another path, so what
+                            # the wrapper holds now is not constrained - nothing is judged on it until the next successful load
+                            probe("abort_swallowed")
+                            fault_fired("abort")
+                            m.update(loaded=None, failed_load=True, cached=False, last=None)
+                            log.append([st.get("client", 0), op, "abort_swallowed"])
+                            continue
                         if tr.fired:
+                            if tr.exc:
+                                fault_fired("injected_error:" + tr.exc)
                             # the analysis was interrupted: nothing may have been cached, and the wrapper must still work
                             fault_fired("abort")
                             fault_in_force = "abort"
@@ -821,9 +833,17 @@ class C16(World):
                     before = set(os.listdir(out_dir)) if os.path.isdir(out_dir) else set()
                     was_cached, last = m["cached"], m["last"]
                     if flt == "abort":
-                        tr = LineTracer(st["abort_at"])
+                        tr = LineTracer(st["abort_at"], st.get("abort_exc"))
                         kind, val = tr.run(lambda: w.export_to_Excel(out_dir))
+                        if tr.fired and kind != "abort" and not was_cached:
+                            probe("abort_swallowed")
+                            fault_fired("abort")
+                            m.update(loaded=None, failed_load=True, cached=False, last=None)
+                            log.append([st.get("client", 0), op, "abort_swallowed"])
+                            continue
                         if tr.fired:
+                            if tr.exc:
+                                fault_fired("injected_error:" + tr.exc)
                             fault_fired("abort")
                             fault_in_force = "abort"
                             if was_cached:
